@@ -473,7 +473,7 @@ def br_execute(c):
     c.ob('quote-read-at-the-given-time-for-the-order-asset', AND(len(qs) >= 1, *[AND(EQ(q[1], dt), EQ(q[2], oa)) for q in qs]), props=['C05', 'C07'])
     fl = W.fills[nf:]
     ok = len(fl) == 1
-    c.ob('exactly-one-fill', ok, props=['C04', 'C05'])
+    c.ob('exactly-one-fill', ok, props=['C04', 'C05', 'C09', 'C08'])
     if not ok:
         return
     f = fl[0]
@@ -976,9 +976,10 @@ def br_init(c):
     from qstrader.broker.fee_model.zero_fee_model import ZeroFeeModel
     funds = c.real('initial_funds', lambda r: r.choice([-5.0, 0.0, 0.0, 1e6, 2500.5]))
     t = c.time('start')
-    for cur in ('USD', 'GBP', 'EUR', 'XXX'):
+    supported = ('USD', 'GBP', 'EUR')
+    for cur in supported + ('XXX', 'usd', 'Gbp', 'eUR', 'US', 'USDX', ''):
         r, b = outcome(lambda: SimulatedBroker(t, None, None, base_currency=cur, initial_funds=funds, fee_model=ZeroFeeModel()))
-        want = 'ValueError' if cur == 'XXX' else expected([(funds < 0.0, 'ValueError')])
+        want = 'ValueError' if cur not in supported else expected([(funds < 0.0, 'ValueError')])
         c.ob('%s/refused-iff-unsupported-currency-or-negative-funds' % cur, r == want, props=['C15', 'C01'])
         if r != 'ok':
             continue
